@@ -12,6 +12,7 @@
 //! One current-thread tokio runtime; after every event the harness yields until the worker is
 //! quiescent, then reads the store, `Syncer::info`, and the outstanding requests.  After every
 //! event the stored headers are compared (by hash) with the honest chain (`off=`).
+use std::sync::atomic::{AtomicU64, Ordering};
 use std::sync::{Arc, OnceLock};
 use std::time::Duration;
 
@@ -30,6 +31,14 @@ use tendermint::Time;
 use verif_harness::*;
 
 const N: u64 = 160;
+/// second, long chain of the size-threshold phase (`start n=700`): batches of 511 / 512 / 513 headers
+const BIG_N: u64 = 700;
+/// length of the chain the current scenario runs on (`N` or `BIG_N`)
+static CUR_N: AtomicU64 = AtomicU64::new(N);
+
+fn cur_n() -> u64 {
+    CUR_N.load(Ordering::Relaxed)
+}
 const DAY: u64 = 24 * 60 * 60;
 const FORKS: [u64; 3] = [10, 50, 90];
 
@@ -42,28 +51,31 @@ struct Pool {
 
 fn pool() -> &'static Pool {
     static P: OnceLock<Pool> = OnceLock::new();
-    P.get_or_init(|| {
-        let first = (Time::now() - Duration::from_secs((N + 1) * DAY)).unwrap();
-        let mut g = ExtendedHeaderGenerator::new();
-        g.set_time(first, Duration::from_secs(DAY));
-        let mut honest = vec![];
-        let mut forks = vec![];
-        for h in 1..=N {
-            honest.push(g.next_empty());
-            if FORKS.contains(&h) {
-                let mut fg = g.fork();
-                forks.push(fg.next_many_empty(N - h));
-            }
+    static PB: OnceLock<Pool> = OnceLock::new();
+    if cur_n() == N { P.get_or_init(|| build_pool(N)) } else { PB.get_or_init(|| build_pool(BIG_N)) }
+}
+
+fn build_pool(n: u64) -> Pool {
+    let first = (Time::now() - Duration::from_secs((n + 1) * DAY)).unwrap();
+    let mut g = ExtendedHeaderGenerator::new();
+    g.set_time(first, Duration::from_secs(DAY));
+    let mut honest = vec![];
+    let mut forks = vec![];
+    for h in 1..=n {
+        honest.push(g.next_empty());
+        if FORKS.contains(&h) {
+            let mut fg = g.fork();
+            forks.push(fg.next_many_empty(n - h));
         }
-        let mut fg = ExtendedHeaderGenerator::new();
-        fg.set_time(first, Duration::from_secs(DAY));
-        let foreign = fg.next_many_empty(N);
-        Pool { honest, forks, foreign }
-    })
+    }
+    let mut fg = ExtendedHeaderGenerator::new();
+    fg.set_time(first, Duration::from_secs(DAY));
+    let foreign = fg.next_many_empty(n);
+    Pool { honest, forks, foreign }
 }
 
 fn honest(h: u64) -> Option<ExtendedHeader> {
-    if h >= 1 && h <= N { Some(pool().honest[(h - 1) as usize].clone()) } else { None }
+    if h >= 1 && h <= cur_n() { Some(pool().honest[(h - 1) as usize].clone()) } else { None }
 }
 
 fn fork(d: u64, h: u64) -> Option<ExtendedHeader> {
@@ -75,7 +87,7 @@ fn fork(d: u64, h: u64) -> Option<ExtendedHeader> {
 }
 
 fn foreign(h: u64) -> Option<ExtendedHeader> {
-    if h >= 1 && h <= N { Some(pool().foreign[(h - 1) as usize].clone()) } else { None }
+    if h >= 1 && h <= cur_n() { Some(pool().foreign[(h - 1) as usize].clone()) } else { None }
 }
 
 struct Ctx {
@@ -230,7 +242,7 @@ impl Ctx {
                 v.reverse();
                 Some(v)
             }
-            Some(b'm') if h + a <= N => Some(hon(h, a + 1)),
+            Some(b'm') if h + a <= cur_n() => Some(hon(h, a + 1)),
             Some(b'z') => Some(vec![]),
             _ => None,
         };
@@ -252,6 +264,64 @@ impl Ctx {
     }
 }
 
+/// Size-threshold stress (S10): sync to convergence, then the pruner removes every second height of a stretch
+/// (`k` removals: `k` pruned ranges, `k + 1` stored ranges), then announcements (adjacent and gapped), bad and
+/// honest answers, more prunings (merging pruned ranges, the tail), drains: the syncer must stay on the chain,
+/// converge and never ask for a pruned height again while `pruned + stored` has many ranges.
+fn comb_scenario(rng: &mut Rng, out: &mut Emitter, n: u64, k: u64, bs: u64, sw: u64, label: &str) {
+    let d = *rng.pick(&FORKS);
+    // (3 rounds of +1 / +2 announcements and a reconnect stay inside the chain)
+    let head = n - rng.range(10, 16);
+    out.op(format!("start n={n} sw={sw} pw=0 bs={bs} d={d}"), &format!("{label}/start"), false);
+    out.op("connect", &format!("{label}/connect"), false);
+    out.op(format!("head h={head}"), &format!("{label}/head"), true);
+    out.op("state", &format!("{label}/state"), false);
+    if n > N {
+        // a batch of more than 512 headers: 8 concurrent requests of 64, the 9th after the first answer
+        for k in ["h", "t5", "e", "h", "i3", "h"] {
+            out.op(format!("ans i={} k={k}", rng.below(8)), &format!("{label}/ans-{}", &k[..1]), true);
+        }
+    }
+    out.op("drain budget=900", &format!("{label}/drain"), true);
+    // the comb, from just below the head downwards (a stretch of 3 stored heights now and then)
+    let mut x = head - rng.range(1, 3);
+    let mut combs = vec![];
+    for _ in 0..k {
+        if x < 3 {
+            break;
+        }
+        out.op(format!("prune h={x}"), &format!("{label}/prune-comb"), true);
+        combs.push(x);
+        x -= if rng.chance(1, 6) { 3 } else { 2 };
+    }
+    out.op("state", &format!("{label}/state"), false);
+    let mut cur = head;
+    for round in 0..3 {
+        cur += 1;
+        out.op(format!("newhead h={cur}"), &format!("{label}/newhead-adjacent"), true);
+        cur += 2;
+        out.op(format!("newhead h={cur}"), &format!("{label}/newhead-gap"), true);
+        let bad = *rng.pick(&["f", "g", "i1", "u0", "e", "n", "z", "t1"]);
+        out.op(format!("ans i=0 k={bad}"), &format!("{label}/ans-{}", &bad[..1]), true);
+        out.op("ans i=0 k=h", &format!("{label}/ans-h"), true);
+        // merge two pruned ranges: the height between two teeth has both neighbours synced (pruned)
+        if let Some(&t) = combs.get(round * 3 + 1) {
+            out.op(format!("prune h={}", t + 1), &format!("{label}/prune-merge"), true);
+        }
+        out.op("prune h=tail", &format!("{label}/prune-tail"), true);
+        out.op("drain budget=900", &format!("{label}/drain"), true);
+    }
+    if rng.bool() {
+        out.op("disconnect", &format!("{label}/disconnect"), true);
+        out.op("connect", &format!("{label}/connect"), false);
+        cur = (cur + 1).min(n);
+        out.op(format!("head h={cur}"), &format!("{label}/head-reconnect"), true);
+        out.op("drain budget=900", &format!("{label}/drain"), true);
+    }
+    out.op("state", &format!("{label}/state"), false);
+    out.op("reset", "reset", false);
+}
+
 impl Prop for C38 {
     fn id(&self) -> &'static str {
         "C38"
@@ -264,7 +334,13 @@ impl Prop for C38 {
          header at a random position, gap, reversed, one too many, empty, not-found, transport error — header-sub \
          announcements (adjacent, gap, stale), up to two disconnect/reconnects with a new network head, removals by \
          the pruner of heights satisfying C35's per-height condition (refused otherwise), and final drains with honest \
-         answers under a step budget (exhausting it is a failure), one of them after further prunings.  After every event: stored ranges, subjective head, outstanding requests \
+         answers under a step budget (exhausting it is a failure), one of them after further prunings; \
+         size-threshold stress (tags big/comb.., thr/n700..): after convergence the pruner removes every second height of a \
+         stretch below the head: 9 / 17 / 33 / 65 teeth (thorough: 8..70, 3 instances each) = that many pruned ranges and one more \
+         stored range, batch sizes 7/8/9 (MIN_AMOUNT_PER_REQ), 63/64/65 (MAX_AMOUNT_PER_REQ), 127/128/129, 511/512/513, then adjacent and \
+         gapped announcements, a bad then an honest answer, merging of pruned ranges, tail prunings, drains, a reconnect; a second \
+         honest chain of 700 headers with batch size 513 (thorough: 511, 512, 513, 1000): 8 concurrent requests of 64 + the 9th, \
+         mixed answers, then a comb of 33 (thorough up to 257) teeth.  After every event: stored ranges, subjective head, outstanding requests \
          and the stored heights whose header hash differs from the honest chain.  Non-trivial = every event after the \
          first accepted head; distinct = distinct (op, result) lines."
     }
@@ -359,6 +435,28 @@ impl Prop for C38 {
             out.op("state", "state", false);
             out.op("reset", "reset", false);
         }
+        // size-threshold stress (S10)
+        let thorough = tier == Tier::Thorough;
+        let combs: Vec<(u64, u64)> = if thorough {
+            // (teeth of the comb, batch size)
+            // (the slow-sync gate stops the syncer at about max(bs / 2, 50) + bs unsampled headers: a comb of k teeth
+            // needs 2k + 3 stored heights, hence the large batch sizes for the large combs)
+            vec![(8, 7), (9, 8), (9, 9), (16, 63), (17, 64), (17, 65), (32, 127), (33, 128), (33, 129), (64, 511), (65, 513), (70, 512)]
+        } else {
+            vec![(9, 9), (17, 65), (33, 128), (65, 512)]
+        };
+        for _ in 0..(if thorough { 3 } else { 1 }) {
+            for &(k, bs) in &combs {
+                let sw = if k <= 17 && rng.bool() { 60 } else { 200 };
+                comb_scenario(rng, out, N, k, bs, sw, &format!("big/comb{k}"));
+            }
+        }
+        // long chain: batches of 511 / 512 / 513 headers = 8 / 8 / 9 requests of MAX_AMOUNT_PER_REQ = 64
+        // (MAX_CONCURRENT_REQS = 8), then a comb of 33 / 129 teeth
+        let bigs: Vec<(u64, u64)> = if thorough { vec![(511, 33), (512, 129), (513, 65), (1000, 257)] } else { vec![(513, 33)] };
+        for (bs, k) in bigs {
+            comb_scenario(rng, out, BIG_N, k, bs, BIG_N + 100, &format!("thr/n700-bs{bs}"));
+        }
     }
 
     fn result_tag(&self, line: &str, result: &str) -> Option<String> {
@@ -388,9 +486,10 @@ impl Prop for C38 {
             else {
                 return "bad-op".into();
             };
-            if n != N || !FORKS.contains(&d) {
+            if (n != N && n != BIG_N) || !FORKS.contains(&d) {
                 return "bad-op".into();
             }
+            CUR_N.store(n, Ordering::Relaxed);
             pool();
             let ctx = self.rt.block_on(async {
                 let (p2p, handle) = mocked_p2p();
